@@ -72,7 +72,7 @@ func checkC16(c *Ctx) {
 	okAll, whyAll := true, ""
 	okSort, whySort := true, ""
 	nOuts := 0
-	for _, file := range files {
+	for fi, file := range files {
 		ex := NewExec(p)
 		// sorting is interpreted with the code's own comparison (abs_sort.go): a stable sort gives the stable permutation;
 		// an unstable one is the identity on input that is already in order and otherwise leaves the order of
@@ -110,7 +110,15 @@ func checkC16(c *Ctx) {
 		one := mkConst(1, 64, true)
 		src := ex.zeroOf(smfT).(*StructV)
 		q := mkSym(ex.syms.Get("resolution", 16, false))
+		st.refineSym(q.T.Syms[0], 1, 32767) // 0 stands for the default resolution; a conversion may or may not spell it out
 		tf := &IfaceV{Dyn: p.namedType("smf", "MetricTicks"), V: q}
+		if tcT := p.namedType("smf", "TimeCode"); fi == 1 && tcT != nil {
+			// the second file counts time in frames (SMPTE 25 fps, any subframe resolution): the conversion keeps the time format
+			tc := ex.zeroOf(tcT).(*StructV)
+			tc.Fields[fieldIndex(tc.T, "FramesPerSecond")] = mkConst(25, 8, false)
+			tc.Fields[fieldIndex(tc.T, "SubFrames")] = mkSym(ex.syms.Get("subframes", 8, false))
+			tf = &IfaceV{Dyn: tcT, V: tc}
+		}
 		src.Fields[fieldIndex(src.T, "TimeFormat")] = tf
 		src.Fields[fieldIndex(src.T, "Tracks")] = &SliceV{Obj: tsid, Off: mkConst(0, 64, true), Len: one, Cap: one}
 		src.Fields[fieldIndex(src.T, "format")] = mkConst(0, 16, false)
